@@ -36,6 +36,18 @@ Proof. exact update_objs_num. Qed.
 Theorem C14_reissue_preserves_payloads : forall now next s, s_pub (os_reissue now next s) = s_pub s.
 Proof. exact reissue_preserves_payloads. Qed.
 
+(** A signed object is renewed iff forced or it expires before [now + re-issue margin]; a run that finds
+    nothing expiring renews nothing. *)
+Theorem C14_renew_due_iff : forall force th l n,
+  In n (renew_names force th l) <-> exists o, In (n, o) l /\ (force = true \/ (o_exp o < th)%Z).
+Proof. exact renew_due_iff. Qed.
+
+Theorem C14_nothing_expiring_nothing_renewed : forall th l,
+  (forall n o, In (n, o) l -> (th <= o_exp o)%Z) -> renew_names false th l = [].
+Proof. exact nothing_expiring_nothing_renewed. Qed.
+
+Print Assumptions C14_renew_due_iff.
+Print Assumptions C14_nothing_expiring_nothing_renewed.
 Print Assumptions C14_due_iff.
 Print Assumptions C14_due_characterised.
 Print Assumptions C14_nothing_due_nothing_changes.
